@@ -79,7 +79,7 @@ PROPS = {
         'uniformly weighted (70%) or uniformly unweighted histories', assumptions=COMMON_ASSUME,
     ),
     'C09': dict(
-        extra_modules=['GraphrsModel.Props.C09Model', 'GraphrsModel.Props.C12Weighted'],
+        extra_modules=['GraphrsModel.Props.C09Model', 'GraphrsModel.Props.C12Weighted', 'GraphrsModel.Props.C09Rest'],
         gens=[('store', 'degrees', 3000, 40000, 12), ('store', 'big', 150, 3000, 0)],
         spec_fields=[r'cnt', r'deg', r'indeg', r'outdeg', r'wdeg', r'windeg', r'woutdeg', r'degall', r'indegall',
                      r'outdegall', r'wdegall', r'windegall', r'woutdegall', r'dens:q', r'dc:q', r'mat'],
@@ -135,14 +135,14 @@ SP_RULE = ('random graphs of all 8 kinds (directed x multi-edge x self-loops) wi
 
 PROPS.update({
     'C04': dict(
-        extra_modules=['GraphrsModel.Props.C04Model', 'GraphrsModel.Props.C08Api'],
+        extra_modules=['GraphrsModel.Props.C04Model', 'GraphrsModel.Props.C08Api', 'GraphrsModel.Props.C04Paths', 'GraphrsModel.Props.C04PathsReach'],
         gens=[('sp', 'small', 2500, 40000, 8), ('sp', 'parallel', 25, 300, 40)],
         spec_fields=[r'ok\.ss', r'ok\.ms', r'ok\.ap'],
         model_fields=[r'build', r'ss', r'ms', r'ap'],
         nontrivial=sp_nontrivial, hist=sp_hist, rule=SP_RULE, assumptions=COMMON_ASSUME,
     ),
     'C08': dict(
-        extra_modules=['GraphrsModel.Props.C04Model', 'GraphrsModel.Props.C08Api'],
+        extra_modules=['GraphrsModel.Props.C04Model', 'GraphrsModel.Props.C08Api', 'GraphrsModel.Props.C04Paths', 'GraphrsModel.Props.C04PathsReach'],
         gens=[('sp', 'small', 2500, 40000, 7), ('sp', 'parallel', 15, 200, 30)],
         spec_fields=[r'ok\.ss', r'ok\.ms', r'ok\.ap', r'ok\.inv'],
         model_fields=[r'build', r'ss', r'ms', r'ap', r'inv'],
@@ -181,6 +181,7 @@ PROPS.update({
         assumptions=COMMON_ASSUME + ['f64 rounding of the quotient is not modelled: values are compared with relative tolerance 1e-9'],
     ),
     'C18': dict(
+        extra_modules=['GraphrsModel.Props.C18Model'],
         gens=[('eig', 'small', 1500, 25000, 7)],
         spec_fields=[r'ok\.eig'], model_fields=[r'build', r'agree\.eig'],
         nontrivial=lambda req, I: I.get('eig:b', '').count('>') >= 2,
